@@ -13,6 +13,9 @@ import (
 	"flag"
 	"fmt"
 	"github.com/jcmturner/goidentity/v6"
+	"github.com/jcmturner/gokrb5/v8/client"
+	"github.com/jcmturner/gokrb5/v8/config"
+	"github.com/jcmturner/gokrb5/v8/credentials"
 	"github.com/jcmturner/gokrb5/v8/spnego"
 	"net/http"
 	"net/http/httptest"
@@ -71,6 +74,9 @@ func cmdMITClient(args []string) error {
 					k.policy.Referrals[spn] = []string{realm, far}
 				}
 				if _, err := k.addPrincipal(svcRealm, spn, "svc-secret", []int32{et}); err != nil {
+					return err
+				}
+				if _, err := k.addPrincipal(realm, "HTTP/other.mit.test", "other-secret", []int32{et}); err != nil {
 					return err
 				}
 				addr, err := k.listen()
@@ -163,6 +169,38 @@ func cmdMITClient(args []string) error {
 					}
 					line["http_"+mech] = map[string]interface{}{"tried": !remote, "served": served, "identity": who, "panic": hp}
 				}
+				// ---- the credential cache MIT wrote (FILE ccache of the runs above: TGT, service ticket, configuration entries) read by
+				// gokrb5: default principal, then a client built from it asks the simulated KDC for a ticket with MIT's TGT
+				ccRes := map[string]interface{}{"tried": !remote, "loaded": false, "principal": "", "clientBuilt": false, "ticket": false, "panic": ""}
+				if !remote {
+					ccRes["panic"] = catch(func() {
+						cc, err := credentials.LoadCCache(cf + ".cc")
+						if err != nil {
+							ccRes["err"] = trunc(err.Error(), 120)
+							return
+						}
+						ccRes["loaded"] = true
+						ccRes["principal"] = cc.GetClientPrincipalName().PrincipalNameString() + "@" + cc.GetClientRealm()
+						ccRes["entries"] = len(cc.GetEntries())
+						gcfg, err := config.NewFromString(conf)
+						if err != nil {
+							panic(err)
+						}
+						gcl, err := client.NewFromCCache(cc, gcfg, client.DisablePAFXFAST(true))
+						if err != nil {
+							ccRes["err"] = trunc(err.Error(), 120)
+							return
+						}
+						ccRes["clientBuilt"] = true
+						if _, _, err := gcl.GetServiceTicket("HTTP/other.mit.test"); err != nil {
+							ccRes["err"] = trunc(err.Error(), 120)
+						} else {
+							ccRes["ticket"] = true
+						}
+						gcl.Destroy()
+					})
+				}
+				line["mitCCache"] = ccRes
 				k.mu.Lock()
 				line["kdcIssued"] = len(k.issued)
 				k.mu.Unlock()
